@@ -5,7 +5,7 @@ from m5check import run_property
 
 SEC, MS = m5.SEC, m5.MS
 BEH = ["reply", "reply", "delay:%d" % (500 * MS), "delay:%d" % (1 * SEC - 1), "delay:%d" % (1 * SEC), "delay:%d" % (1 * SEC + 1),
-       "delay:%d" % (3 * SEC - 1), "delay:%d" % (3 * SEC), "delay:%d" % (3 * SEC + 1), "delay:%d" % (8 * SEC), "hang", "hang"]
+       "delay:%d" % (3 * SEC - 1), "delay:%d" % (3 * SEC), "delay:%d" % (3 * SEC + 1), "delay:%d" % (8 * SEC), "hang", "hang", "upgrade", "upgrade"]
 PROFILES = [
     {"requests": 2.5, "deploys": 1.5, "pause": 1.2, "rollout": 0.3, "remove": 0, "flap": 0.1, "flap_targets": False, "behaviours": BEH,
      "fail_deploys": 0.1, "yields": 0.8, "initial_all": True, "drain_timeouts": [0, 1, 1 * SEC, 3 * SEC, 3 * SEC],
@@ -44,6 +44,6 @@ def run(tier, seed):
                      "table / the gate reaches a drained target after the command returned",
         assumptions=["every lock region of the Go code is one atomic step (runs use GOMAXPROCS(1); data-race freedom is C18's concern)",
                      "'cut off' = the proxy cancelled the request context; how fast net/http then closes the upstream connection is not modelled",
-                     "upgraded (WebSocket) connections are not generated by this harness",
+                     "upgraded connections are in-memory (an upgraded request = the target answered 101 and the proxy took the client connection over)",
                      "overlapping commands on one service (second Drain returns at once) are outside the property's quantifier"],
         forced=[forced.d2_served_by_replaced(), forced.d3_served_while_paused(), forced.pause_drains_stopped_rollout(), forced.drain_grants_the_drain_timeout()], extra=race_stress)
